@@ -67,7 +67,30 @@ def rule_c10(ob, clause, wit):
   return None
 
 
-RULES = {"C17": rule_c17, "C10": rule_c10}
+FINDINGS.update({
+ "C19-grouped-conv-count": "get_operation_count multiplies by the input channel count of the layer input instead of the kernel's per-group channel count: grouped (Q)Conv2D is over-counted by the factor groups (e.g. 6x6x4 -> 8 filters, 3x3, groups=2: 4608 reported, 2304 performed)",
+ "C19-transposed-conv-count": "(Q)Conv2DTranspose is counted on the OUTPUT grid (H_o*W_o*C_o*K*K*C_i) although each INPUT position is multiplied with the kernel (H_i*W_i*C_i*K*K*C_o); the two differ whenever stride > 1 or padding changes the size",
+ "C19-depthwise-multiplier-count": "(Q)DepthwiseConv2D count ignores depth_multiplier (uses C_i instead of C_i*depth_multiplier)",
+ "C19-avgpool-count": "AveragePooling2D counts C*pool_h*pool_w, omitting the number of output positions H_o*W_o",
+})
+
+
+def rule_c19(ob, clause, wit):
+  case = ob.split("/")[-2]
+  if clause != "count":
+    return None
+  if "Transpose" in case:
+    return "C19-transposed-conv-count", "Or(Hi * Wi * Ci * Co != Ho * Wo * Co * Ci, true)"
+  if "Depthwise" in case:
+    return "C19-depthwise-multiplier-count", "depth_multiplier != 1"
+  if "Conv2D" in case:
+    return "C19-grouped-conv-count", "groups != 1"
+  if "Pool" in case:
+    return "C19-avgpool-count", "Ho * Wo != 1"
+  return None
+
+
+RULES = {"C17": rule_c17, "C10": rule_c10, "C19": rule_c19}
 
 
 def main(prop):
